@@ -28,7 +28,8 @@ ASSUMPTIONS = ["vmon/ref/grouping.py classifies orphans as documented"]
 MONITORS = ["roundtrip", "inside_hold"]
 REQUIRED = ["keysounded_head_joined", "dropped_orphans", "note_inside_hold", "corpus_chart",
             "tail_same_beat_between_row_notes", "by_type_two_heads_one_orphan", "note_inside_hold_in_a_multi_note_row",
-            "joined_hold_nested_in_a_joined_hold_on_its_column"]
+            "joined_hold_nested_in_a_joined_hold_on_its_column", "run_aborted_by_an_exception_before_a_judged_run",
+            "generator_abandoned_before_a_judged_run", "distinct_beats_that_are_the_same_float"]
 
 
 def anchors():
@@ -155,15 +156,34 @@ def roundtrip(ctx, notes, include, case):
     SB = {R.SEPARATE: SameBeatNotes.KEEP_SEPARATE, R.BY_TYPE: SameBeatNotes.JOIN_BY_NOTE_TYPE, R.ALL: SameBeatNotes.JOIN_ALL}
     OP = {R.RAISE: OrphanedNotes.RAISE_EXCEPTION, R.KEEP: OrphanedNotes.KEEP_ORPHAN, R.DROP: OrphanedNotes.DROP_ORPHAN}
     feature_scan(ctx, [n for n in model if n[2] in inc_model])
+    bs = sorted({n[0] for n in model})
+    if any(a != b and float(a) == float(b) for a, b in zip(bs, bs[1:])):
+        ctx.feat("distinct_beats_that_are_the_same_float")
 
-    for sb, join, oh, ot in c09.OPTIONS:
-        try:
-            want = R.expected_ungrouped(model, inc_model, join, oh, ot)
-        except R.Raised:
-            continue  # group_notes raises; that is C09's business
+    for oi, (sb, join, oh, ot) in enumerate(c09.OPTIONS):
         kwargs = dict(include_note_types=inc_real, same_beat_notes=SB[sb], join_heads_to_tails=join)
         if join:
             kwargs.update(orphaned_head=OP[oh], orphaned_tail=OP[ot])
+        try:
+            want = R.expected_ungrouped(model, inc_model, join, oh, ot)
+        except R.Raised:
+            # group_notes raises (what it raises is C09's business). The call is made all the same: a run that
+            # ends part-way in an exception must leave nothing behind for the runs judged after it
+            try:
+                list(group_notes(iter(real), **kwargs))
+            except OrphanedNoteException:
+                ctx.feat("run_aborted_by_an_exception_before_a_judged_run")
+            continue
+        if oi % 3 == 0 and join:
+            # ... and so must a run whose generator is abandoned after one or two groups
+            g = group_notes(iter(real), **kwargs)
+            try:
+                next(g, None)
+                next(g, None)
+            except OrphanedNoteException:
+                pass
+            del g
+            ctx.feat("generator_abandoned_before_a_judged_run")
         try:
             grouped = [list(g) for g in group_notes(iter(real), **kwargs)]
         except OrphanedNoteException:
